@@ -134,6 +134,32 @@ func runC16(args []string) error {
 			frame(c, genJ2KSamples(r, "noise", c.W, c.H, 1, 8))
 		}
 	}
+	// HTJ2K, CT/MR-like content: a textured object on an all-zero background.  All-zero code-blocks next to busy ones drive
+	// the MEL / VLC / MagSgn byte streams of the HT cleanup pass to their extremes (long MEL runs, suffix bytes of all ones),
+	// where the marker-avoidance rules of the three streams matter
+	nObj := 40
+	if f.big {
+		nObj = 120
+	}
+	for i := 0; i < nObj; i++ {
+		w, h := 128+r.Intn(129), 128+r.Intn(129)
+		p := []int{8, 12, 16}[i%3]
+		maxval := (1 << uint(p)) - 1
+		s := make([]int, w*h)
+		cx, cy, rad := w/2+r.Intn(w/4)-w/8, h/2+r.Intn(h/4)-h/8, min(w, h)/5+r.Intn(min(w, h)/6)
+		for y := 0; y < h; y++ {
+			for x := 0; x < w; x++ {
+				if (x-cx)*(x-cx)+(y-cy)*(y-cy) < rad*rad {
+					s[y*w+x] = maxval/3 + r.Intn(maxval/2)
+					if (x/3+y/5)%7 == 0 {
+						s[y*w+x] = maxval - r.Intn(3)
+					}
+				}
+			}
+		}
+		cb := []int{64, 32, 16}[r.Intn(3)]
+		frame(rtCase{API: "j2k", Lossless: true, HT: true, W: w, H: h, C: 1, P: p, Levels: []int{5, 3, 2, 0}[i%4], CBW: cb, CBH: cb, Layers: 1, Prog: []int{0, 2}[i%2], Cls: "object"}, s)
+	}
 	// reverse direction (informational): codestreams written by the TLA+ reference encoder (spec/J2kEnc.tla) decoded by the library
 	nrev := 0
 	if f.scn != "" {
